@@ -58,8 +58,6 @@ KNOWN_UNSUPPORTED = {
               'mapped function is not found (9.5k)',
     'C16-i1': 'keys assembled by string arithmetic from the relative path of '
               'the rule directory: an argument about os.path (9.5k)',
-    'C19-i1': 'prototype initialiser chosen by a helper method: expression '
-              'not understood (9.5k)',
 }
 
 
